@@ -7,7 +7,11 @@ import (
 	"fmt"
 	"io"
 	"log/slog"
+	"os"
 	"regexp"
+	"runtime"
+	"runtime/debug"
+	"sort"
 	"strconv"
 	"strings"
 	"sync"
@@ -63,6 +67,9 @@ type plan struct {
 	api       bool
 	colorful  bool
 	addSource bool
+	// the isolated replays are computed BEFORE the history runs, on an emptied buffer pool (two GCs): for histories that
+	// are meant to leave buffers of a critical capacity in the process-global pool
+	presolo bool
 }
 
 func newPlan(k lg.Kind, what string, r *hk.Rng) *plan {
@@ -98,6 +105,11 @@ func (p *plan) log(node, ownpad, gor int) {
 		}
 	}
 	p.ops = append(p.ops, op{l: &lop{node: node, id: 1000 + n, ownpad: ownpad, gor: gor, noOwn: p.r.Chance(20)}})
+}
+
+func (p *plan) logOwn(node, ownpad, gor int) {
+	p.log(node, ownpad, gor)
+	p.ops[len(p.ops)-1].l.noOwn = false
 }
 
 func attrVal(id, pad int) string { return "M" + strconv.Itoa(id) + strings.Repeat("x", pad) + "Z" }
@@ -282,6 +294,19 @@ func execute(e *hk.Env, p *plan) result {
 			dops[o.d.id] = o.d
 		}
 	}
+	pre := map[int][]byte{}
+	if p.presolo {
+		runtime.GC()
+		runtime.GC() // sync.Pool is emptied by the second collection (victim cache)
+		for _, o := range p.ops {
+			if o.l != nil {
+				pre[o.l.id] = p.solo(o.l.node, dops, o.l)
+				if pre[o.l.id] == nil {
+					pre[o.l.id] = []byte{}
+				}
+			}
+		}
+	}
 	var wg sync.WaitGroup
 	start := make(chan struct{})
 	var errMu sync.Mutex
@@ -349,7 +374,14 @@ func execute(e *hk.Env, p *plan) result {
 		}
 		l := o.l
 		res.logs++
-		want := p.solo(l.node, dops, l)
+		var want []byte
+		if p.presolo {
+			if want = pre[l.id]; len(want) == 0 {
+				want = nil
+			}
+		} else {
+			want = p.solo(l.node, dops, l)
+		}
 		lines := got[l.id]
 		var line []byte
 		if len(lines) > 0 {
@@ -447,6 +479,132 @@ func (p *plan) describe() string {
 	return sb.String()
 }
 
+// capAfter: the capacity Go's append leaves a pooled buffer (initial capacity 1024) with, after a line that consists of
+// `before` bytes appended in small pieces, one piece of n bytes, and `after` bytes in small pieces (measured, not computed)
+func capAfter(before, n, after int) int {
+	buf := make([]byte, 0, 1024)
+	for i := 0; i < before; i++ {
+		buf = append(buf, 'h')
+	}
+	buf = append(buf, make([]byte, n)...)
+	for i := 0; i < after; i++ {
+		buf = append(buf, 't')
+	}
+	return cap(buf)
+}
+
+const poolLimit = 16 << 10
+
+// criticalPads: value paddings for which the line (or the rendered With attributes) lands on the boundaries that matter for
+// the pooled buffers: a dense grid from 8 KiB to 17 KiB, the line lengths 16383/16384/16385, and the first / last paddings
+// for which the buffer's capacity is exactly 16384 (the pool limit, a malloc size class) plus their neighbours.
+func criticalPads(before, after int, thorough bool) []int {
+	set := map[int]bool{}
+	step := 256
+	if thorough {
+		step = 64
+	}
+	for p := 8 << 10; p <= 17<<10+256; p += step {
+		set[p] = true
+	}
+	fixed := before + after + 3 // "M<id>" .. "Z" around the padding: roughly; neighbours are added below
+	for _, l := range []int{poolLimit - 1, poolLimit, poolLimit + 1} {
+		for d := -6; d <= 6; d++ {
+			set[l-fixed+d] = true
+		}
+	}
+	lo, hi := -1, -1
+	for p := 12 << 10; p <= 17<<10; p++ {
+		if capAfter(before, p+6, after) == poolLimit {
+			if lo < 0 {
+				lo = p
+			}
+			hi = p
+		}
+	}
+	if lo >= 0 {
+		for d := -3; d <= 3; d++ {
+			set[lo+d] = true
+			set[hi+d] = true
+		}
+		set[(lo+hi)/2] = true
+	}
+	var r []int
+	for p := range set {
+		if p > 0 {
+			r = append(r, p)
+		}
+	}
+	sort.Ints(r)
+	return r
+}
+
+// poisonFamily: (a) some logger writes a line whose pooled buffer ends with a critical capacity, (b) loggers are derived with
+// With("k","v") / WithGroup - and with attribute lists whose own rendered size is critical -, (c) other loggers write other
+// lines, (d) the children's lines are compared with isolated replays made beforehand on an emptied pool.
+// One goroutine; half of the histories with GOMAXPROCS(1) and the collector off, so that sync.Pool hands the same buffer back.
+func poisonFamily(e *hk.Env, r *hk.Rng) (trees, logs, bad int) {
+	defer debug.SetGCPercent(debug.SetGCPercent(100))
+	defer runtime.GOMAXPROCS(runtime.GOMAXPROCS(0))
+	for _, k := range lg.Kinds {
+		// where the padding sits in a line of this handler
+		probe, _ := lg.Solo(k, logger.LevelInfo, nil, lg.NewRecord(logger.LevelInfo, lg.Msg(1000), slog.String("r", attrVal(1000, 0))))
+		before := bytes.Index(probe, []byte("M1000"))
+		if before < 0 {
+			before = 60
+		}
+		after := len(probe) - before - len(attrVal(1000, 0))
+		for i, pd := range criticalPads(before, after, e.Thorough()) {
+			for variant := 0; variant < 2; variant++ {
+				if variant == 1 {
+					runtime.GOMAXPROCS(1)
+					debug.SetGCPercent(-1)
+				} else {
+					runtime.GOMAXPROCS(8)
+					debug.SetGCPercent(100)
+				}
+				p := newPlan(k, fmt.Sprintf("pool-poison pad=%d variant=%d", pd, variant), r)
+				p.presolo = true
+				if (i+variant)%2 == 0 {
+					p.api = false // hand-built records: exact line lengths
+				}
+				// (b0) a logger derived before anything was written
+				early := p.deriveShaped(0, false, []int{1}, []int{0}, 0)
+				// (a) some logger writes the critical line
+				if i%3 == 0 {
+					p.logOwn(early, pd, 0)
+				} else {
+					p.logOwn(0, pd, 0)
+				}
+				// (b) derive small children now
+				c1 := p.deriveShaped(0, false, []int{0}, []int{0}, 0)
+				g1 := p.deriveShaped(c1, true, []int{0}, []int{0}, 0)
+				c2 := p.deriveShaped(g1, false, []int{2, 1}, []int{0, 0}, 0)
+				// (b') a With whose own attributes are of the critical size
+				big := p.deriveShaped(early, false, []int{pd - before}, []int{0}, 0)
+				if pd-before <= 0 {
+					big = p.deriveShaped(early, false, []int{pd}, []int{0}, 0)
+				}
+				c3 := p.deriveShaped(big, false, []int{3}, []int{0}, 0)
+				// (c) other loggers write other lines
+				p.logOwn(0, 5, 0)
+				p.logOwn(early, 40, 0)
+				p.logOwn(0, 900, 0)
+				p.logOwn(early, 2, 0)
+				// (d) the children
+				for _, n := range []int{c1, g1, c2, big, c3, c1, early, 0} {
+					p.logOwn(n, 1+n, 0)
+				}
+				res := execute(e, p)
+				trees++
+				logs += res.logs
+				bad += res.bad
+			}
+		}
+	}
+	return
+}
+
 // sizes swept across Go's append growth steps
 func sweepPads(thorough bool) []int {
 	var r []int
@@ -480,6 +638,24 @@ func run(e *hk.Env) error {
 	r := e.Rng.Fork()
 	totalLogs, totalBad, trees := 0, 0, 0
 	shapeHist := map[string]int{}
+
+	// 0. buffers of critical capacity left in the process-global pool (also run alone, in a build WITHOUT the race detector,
+	// by the check: under -race sync.Pool drops items at random)
+	{
+		t, l, b := poisonFamily(e, r)
+		trees += t
+		totalLogs += l
+		totalBad += b
+		shapeHist["pool-poison"] = t
+		e.Stats["race_detector_build"] = raceEnabled
+		if os.Getenv("C03_ONLY") == "poison" {
+			e.Stats["trees"] = trees
+			e.Stats["cases"] = trees
+			e.Stats["lines_compared_with_isolated_replay"] = totalLogs
+			e.Stats["lines_differing"] = totalBad
+			return nil
+		}
+	}
 
 	// 1. the sibling sweep: two children of one parent whose preformatted has spare capacity
 	pads := sweepPads(e.Thorough())
